@@ -4284,10 +4284,14 @@ class NetCDFWrite(IOWrite):
                 if v is not None:
                     force_global.setdefault("Conventions", []).append(v)
 
+        # Note: the values need not be hashable (e.g. numpy arrays)
         force_global = {
             attr: v[0]
             for attr, v in force_global.items()
-            if len(v) == len(fields) and len(set(v)) == 1
+            if len(v) == len(fields)
+            and all(
+                self.implementation.equal_properties(v[0], x) for x in v[1:]
+            )
         }
 
         # File descriptors supercede "forced" global attributes
